@@ -118,6 +118,13 @@ def check_function_vcgen(P, specs, key, outdir, timeout, tier):
     return r
 
 
+_VC_ARGS = None
+
+def _vcgen_batch():
+    P, specs, keys, outdir, timeout, tier = _VC_ARGS
+    return {key: check_function_vcgen(P, specs, key, outdir, timeout, tier) for key in keys}
+
+
 def bounded_confirmation(r, sp, timeout=300):
     """A failed obligation under loop contracts starts from an arbitrary invariant state.  Re-check the same function
     WITHOUT loop contracts (loops unwound, small symbolic buffers): a failure found there is a real execution from the
@@ -198,10 +205,30 @@ def run_property(pid, cfg, tier='quick', seed=0, replayer=None):
     results = []
     def is_vc(key):
         return specs.get(key) is not None and (specs[key].extra.get('backend') == 'vcgen' or specs[key].is_lemma)
+    # the z3 Python API shares one global context and is not thread safe (even reference-count releases from the garbage
+    # collector of another thread race with a running solver): the vcgen functions run one after the other in a child
+    # process forked BEFORE any worker thread exists; this process never touches z3
+    vkeys = [key for key in cfg['functions'] if is_vc(key)]
+    vpool = vasync = None
+    if vkeys:
+        import multiprocessing
+        global _VC_ARGS
+        _VC_ARGS = (P, specs, vkeys, outdir, timeout, tier)     # inherited by the forked child (no pickling of the AST)
+        vpool = multiprocessing.get_context('fork').Pool(1)
+        vasync = vpool.apply_async(_vcgen_batch)
     with ThreadPoolExecutor(jobs) as ex:
         futs = {key: ex.submit(check_function, P, specs, key, outdir, timeout, tier) for key in cfg['functions'] if not is_vc(key)}
-        # the z3 Python API shares one global context: vcgen functions run here, one after the other
-        vres = {key: check_function(P, specs, key, outdir, timeout, tier) for key in cfg['functions'] if is_vc(key)}
+        vres = {}
+        if vasync is not None:
+            try:
+                vres = vasync.get(timeout=4 * timeout + 600)
+            except Exception as e:
+                for key in vkeys:
+                    r_ = FnResult(key)
+                    r_.backend = 'vcgen'
+                    r_.undecided = 'vcgen worker process failed: %r' % (e,)
+                    vres[key] = r_
+            vpool.terminate()
         for key in cfg['functions']:
             results.append(vres[key] if key in vres else futs[key].result())
     table = {}
